@@ -91,8 +91,12 @@ func CloneTo[T any](maybeSelf MaybeDef[T], dest T) MaybeDef[T] {
 		y := reflect.New(starX.Type())
 		starY := y.Elem()
 		starY.Set(starX)
-		reflect.ValueOf(dest).Elem().Set(y.Elem())
-		return JustGenerics(dest)
+		if d := reflect.ValueOf(dest); d.Kind() == reflect.Ptr && !d.IsNil() {
+			d.Elem().Set(y.Elem())
+			return JustGenerics(dest)
+		}
+		// no destination target given (e.g. Clone()): the fresh copy is the clone
+		return JustGenerics(y.Interface().(T))
 	}
 	dest = x.Interface().(T)
 
@@ -128,7 +132,7 @@ func (maybeSelf someDef[T]) ToString() string {
 
 // ToPtr Maybe to Ptr
 func (maybeSelf someDef[T]) ToPtr() *T {
-	if maybeSelf.IsPtr() {
+	if maybeSelf.IsPtr() && !maybeSelf.IsNil() {
 		val := reflect.Indirect(reflect.ValueOf(maybeSelf.ref)).Interface()
 		switch val.(type) {
 		case *T:
@@ -154,6 +158,9 @@ func (maybeSelf someDef[T]) ToMaybe() MaybeDef[T] {
 		return maybeSelf
 	case someDef[T]:
 		return (ref).(someDef[T])
+	case MaybeDef[T]:
+		// any other Maybe (e.g. None) is one level of nesting as well
+		return (ref).(MaybeDef[T])
 	}
 }
 
